@@ -1,6 +1,7 @@
 package closersim
 
 import (
+	"bytes"
 	"errors"
 	"fmt"
 	"sort"
@@ -113,9 +114,18 @@ func runDirect(r *simcore.Run, s setup, d directCfg) {
 	}
 
 	completed := false
+	var (
+		prevSig, pendSig   [2]input.Signature
+		prevFee, pendFee   btcutil.Amount
+		havePrev, havePend bool
+		prevTx, pendTx     []byte
+	)
 	for i := 0; i < d.nFees && r.Step(); i++ {
 		fee := btcutil.Amount(cands[r.Draw(len(cands))])
 		r.Kind("direct:fee")
+		if havePend {
+			prevFee, prevSig, prevTx, havePrev, havePend = pendFee, pendSig, pendTx, true, false
+		}
 		last := i == d.nFees-1
 		// Without the RBF option set the channel refuses further
 		// proposals once a close was completed, so only the last fee of
@@ -183,9 +193,22 @@ func runDirect(r *simcore.Run, s setup, d directCfg) {
 			e.verifyWitness(e.assemble(tx[0], sig), what+" (simulator-completed)")
 		}
 		r.Count("direct_proposals")
+		pendFee, pendSig, pendTx, havePend = fee, sig, txBytesNoWitness(tx[0]), true
 		if !complete {
 			r.Logf("%s: identical tx %v, outputs ok", what, tx[0].TxHash())
 			continue
+		}
+		// negative control: the peer's signature for ANOTHER fee must not
+		// complete this transaction (each signature must be verified).
+		if !e.Taproot && havePrev && !bytes.Equal(prevTx, txBytesNoWitness(tx[0])) {
+			for x := 0; x < 2; x++ {
+				btx, _, err := e.Ch[x].CompleteCooperativeClose(sig[x], prevSig[1-x], e.Script[x], e.Script[1-x], fee, opts[x]...)
+				if err == nil {
+					e.verifyWitness(btx, fmt.Sprintf("%s: %s completed with the peer's signature for fee %d", what, nm(x), prevFee))
+					r.Harness("%s: a signature for a different transaction passed the script engine", what)
+				}
+				r.Count("probe_foreign_sig_refused")
+			}
 		}
 		var final [2]*wire.MsgTx
 		for x := 0; x < 2; x++ {
